@@ -16,7 +16,7 @@ type c13 struct{}
 
 func init() { registry["C13"] = c13{} }
 
-var likeAlpha = []byte{'a', 'b', '.', '%', '_'}
+var likeAlpha = []byte{'a', 'b', '.', '%', '_', 'A', 'B'} // upper-case twins: LIKE is case-sensitive, and nothing keyed by a case-folded text may mix two patterns up
 
 func (c13) Count(tier string) int {
 	if tier == "thorough" {
@@ -84,8 +84,22 @@ func (c13) Gen(rng *rand.Rand, tier string, idx int) Case {
 		case k < 11:
 			c.Ops = append(c.Ops, []string{"conv", hx(p)})
 		case k < 14:
-			pos := []string{"where", "case", "having"}[rng.Intn(3)]
+			pos := []string{"where", "case", "having", "select", "select"}[rng.Intn(5)]
 			c.Ops = append(c.Ops, []string{"sql", pos, hx(t), hx(p)})
+			if pos == "select" && rng.Intn(2) == 0 {
+				// the case twin of the pattern right behind it, on the same text
+				c.Ops = append(c.Ops, []string{"sql", pos, hx(t), hx(swapCase(p))})
+			}
+			if rng.Intn(3) == 0 {
+				// LIKE next to IS [NOT] NULL, on rows where x and y are present, NULL or missing
+				pos2 := []string{"casecombo", "havingcombo"}[rng.Intn(2)]
+				xc := []string{"p", "p", "n", "m"}[rng.Intn(4)]
+				yc := []string{"p", "n", "m"}[rng.Intn(3)]
+				if pos2 == "havingcombo" {
+					xc = "p" // the group column is present; y decides
+				}
+				c.Ops = append(c.Ops, []string{"combo", pos2, hx(t), hx(p), xc, yc})
+			}
 		default:
 			path := []string{"where", "case", "fn", "having"}[rng.Intn(4)]
 			cell := []string{"m", "n", "p"}[rng.Intn(3)]
@@ -114,9 +128,63 @@ func sawMid(id string) func([][]map[string]interface{}) bool {
 	}
 }
 
+func swapCase(s string) string {
+	b := []byte(s)
+	for i, ch := range b {
+		if ch >= 'a' && ch <= 'z' {
+			b[i] = ch - 32
+		} else if ch >= 'A' && ch <= 'Z' {
+			b[i] = ch + 32
+		}
+	}
+	return string(b)
+}
+
+func c13Cell(row map[string]interface{}, col, cell, text string) {
+	switch cell {
+	case "p":
+		row[col] = text
+	case "n":
+		row[col] = nil
+	}
+}
+
+// sqlCombo: LIKE and IS NULL in one CASE / one HAVING. Results: casecombo L|N|E, havingcombo t|f.
+func sqlCombo(pos, t, p, xc, yc string) string {
+	row := map[string]interface{}{"id": 1}
+	c13Cell(row, "x", xc, t)
+	c13Cell(row, "y", yc, "v")
+	switch pos {
+	case "casecombo":
+		out, e1, e2 := runRowQuery("SELECT id, CASE WHEN x LIKE '"+p+"' THEN 'L' WHEN y IS NULL THEN 'N' ELSE 'E' END AS r FROM stream", row)
+		if e1 != nil || e2 != nil || out == nil {
+			return "err"
+		}
+		return fmt.Sprint(out["r"])
+	case "havingcombo":
+		sent := map[string]interface{}{"id": 2, "x": sentinelText(p), "y": "v"}
+		sql := "SELECT x, count(*) AS c, max(id) AS mid, last_value(y) AS ly FROM stream GROUP BY x, CountingWindow(1) HAVING x LIKE '" + p + "' AND ly IS NOT NULL"
+		got, err := runBatchesUntil(sql, []map[string]interface{}{row, sent}, sawMid("2"), 2*time.Second)
+		if err != nil {
+			return "err"
+		}
+		if !sawMid("2")(got) {
+			return "sentinel-lost"
+		}
+		return btok(sawMid("1")(got))
+	}
+	return "bad-pos"
+}
+
 func sqlLike(pos, t, p string) string {
 	row := map[string]interface{}{"id": 1, "x": t}
 	switch pos {
+	case "select":
+		out, e1, e2 := runRowQuery("SELECT id, (x LIKE '"+p+"') AS r FROM stream", row)
+		if e1 != nil || e2 != nil || out == nil {
+			return "err"
+		}
+		return btok(fmt.Sprint(out["r"]) == "true")
 	case "where":
 		out, e1, e2 := runRowQuery("SELECT id FROM stream WHERE x LIKE '"+p+"'", row)
 		if e1 != nil || e2 != nil {
@@ -219,6 +287,8 @@ func (c13) Exec(c Case) [][][]string {
 			out = append(out, [][]string{{"r", sqlLike(op[1], unhx(op[2]), unhx(op[3]))}})
 		case "isnull":
 			out = append(out, [][]string{{"r", sqlIsNull(op[1], op[2], op[3])}})
+		case "combo":
+			out = append(out, [][]string{{"r", sqlCombo(op[1], unhx(op[2]), unhx(op[3]), op[4], op[5])}})
 		default:
 			out = append(out, [][]string{{"bad-op"}})
 		}
